@@ -392,7 +392,7 @@ def _random_script(rng, cmp_, n, ncalls):
                 # replace an equal key (not possible with the node-address comparator)
                 if present and cmp_ != "ptr":
                     both = sorted(present & keptk)
-                    if both and rng.random() < 0.5:
+                    if both and rng.random() < 0.8:
                         k = rng.choice(both)
                         keptk.discard(k)
                         out.append("J %d" % k)
